@@ -63,6 +63,9 @@ class Ctx:
         ]
         if getattr(self.prog, "aliases", None):
             self.trusted.append("rename matcher (lacecheck/alias.py): %s" % ", ".join("%s is the reference tree's %s" % (a, b) for a, b in sorted(self.prog.aliases.items())))
+        if getattr(self.prog, "inlined", None):
+            self.trusted.append("inliner (lacecheck/inline.py): functions unknown to the reference tree inlined at their call sites: %s"
+                                % ", ".join("%s x%d" % (a, n) for a, n in sorted(self.prog.inlined.items())))
         self.known_db = load_known()
         self.analysed_fns = set()
 
